@@ -140,6 +140,8 @@ impl<T: RcObject> AtomicRc<T> {
     /// Panics if `order` is `Release` or `AcqRel`.
     #[inline]
     pub fn load<'g>(&self, order: Ordering, guard: &'g Guard) -> Snapshot<'g, T> {
+        #[cfg(feature = "circ_verif")]
+        crate::verif::yp(crate::verif::site::ARC_LOAD, &self.link as *const _ as usize);
         Snapshot::from_raw(self.link.load(order), guard)
     }
 
@@ -150,6 +152,8 @@ impl<T: RcObject> AtomicRc<T> {
     #[inline]
     pub fn store(&self, ptr: Rc<T>, order: Ordering, guard: &Guard) {
         let new_ptr = ptr.ptr;
+        #[cfg(feature = "circ_verif")]
+        crate::verif::yp2(crate::verif::site::ARC_STORE_SWAP, &self.link as *const _ as usize, new_ptr.verif_word(), 0);
         let old_ptr = self.link.swap(new_ptr.with_timestamp(), order);
         // Skip decrementing a strong count of the inserted pointer.
         forget(ptr);
@@ -169,6 +173,8 @@ impl<T: RcObject> AtomicRc<T> {
     #[inline(always)]
     pub fn swap(&self, new: Rc<T>, order: Ordering) -> Rc<T> {
         let new_ptr = new.into_raw();
+        #[cfg(feature = "circ_verif")]
+        crate::verif::yp2(crate::verif::site::ARC_SWAP, &self.link as *const _ as usize, new_ptr.verif_word(), 0);
         let old_ptr = self.link.swap(new_ptr.with_timestamp(), order);
         Rc::from_raw(old_ptr)
     }
@@ -201,6 +207,8 @@ impl<T: RcObject> AtomicRc<T> {
         let mut expected_raw = expected.ptr;
         let desired_raw = desired.ptr.with_timestamp();
         loop {
+            #[cfg(feature = "circ_verif")]
+            crate::verif::yp2(crate::verif::site::ARC_CAS, &self.link as *const _ as usize, expected_raw.verif_word(), desired_raw.verif_word());
             match self
                 .link
                 .compare_exchange(expected_raw, desired_raw, success, failure)
@@ -253,6 +261,8 @@ impl<T: RcObject> AtomicRc<T> {
         let mut expected_raw = expected.ptr;
         let desired_raw = desired.ptr.with_timestamp();
         loop {
+            #[cfg(feature = "circ_verif")]
+            crate::verif::yp2(crate::verif::site::ARC_CAS_WEAK, &self.link as *const _ as usize, expected_raw.verif_word(), desired_raw.verif_word());
             match self
                 .link
                 .compare_exchange_weak(expected_raw, desired_raw, success, failure)
@@ -310,6 +320,8 @@ impl<T: RcObject> AtomicRc<T> {
         let mut expected_raw = expected.ptr;
         let desired_raw = expected_raw.with_tag(desired_tag).with_timestamp();
         loop {
+            #[cfg(feature = "circ_verif")]
+            crate::verif::yp2(crate::verif::site::ARC_CAS_TAG, &self.link as *const _ as usize, expected_raw.verif_word(), desired_raw.verif_word());
             match self
                 .link
                 .compare_exchange(expected_raw, desired_raw, success, failure)
